@@ -1,7 +1,12 @@
 //! Engine K: Kani proof harnesses over the real sm9_core crate (path dependency on /repo,
 //! built with --cfg john_yu_sm9_core_verif). See /verif/DESIGN.md section 2.
+//! The same bodies compile natively (no stubs) and are run by src/bin/replay.rs on counterexamples.
 #![allow(unused, clippy::all)]
-#[cfg(kani)]
 pub mod common;
-#[cfg(kani)]
 pub mod lin;
+
+pub fn registry() -> Vec<(&'static str, fn())> {
+    let mut v = Vec::new();
+    v.extend(lin::registry());
+    v
+}
